@@ -199,6 +199,10 @@ func (s *BadSmellListener) EnterFieldDeclaration(ctx *FieldDeclarationContext) {
 }
 
 func (s *BadSmellListener) EnterLocalVariableDeclaration(ctx *LocalVariableDeclarationContext) {
+	// "@A final T x": the second child is the bare token 'final', it has no children
+	if ctx.GetChild(1) == nil || ctx.GetChild(1).GetChild(0) == nil || ctx.GetChild(1).GetChild(0).GetChild(0) == nil {
+		return
+	}
 	typ := ctx.GetChild(0).(antlr.ParseTree).GetText()
 	variableName := ctx.GetChild(1).GetChild(0).GetChild(0).(antlr.ParseTree).GetText()
 	localVars[variableName] = typ
